@@ -1,5 +1,6 @@
 import Pun.Model.Query
 import Pun.Gen.GridGen
+import Pun.Gen.LevelsGen
 namespace Pun.Drv.C18
 open Pun Pun.Dss Pun.Query
 
@@ -20,6 +21,13 @@ def parseN (s : String) : Option (Option Nat) :=
 
 def g := Gen.pValues
 
+/-- the level table for `n` pieces: the regenerated `np.linspace(0.001, 0.999, n)` when `2 ≤ n ≤ steps`
+(the tables the theorems are about), otherwise the table the harness sent -/
+def lvOf (n : Nat) (wire : List Rat) : List Rat :=
+  match Gen.levelTable n with
+  | some t => t
+  | none => wire
+
 def handle : List String → String
   | [op, l, r, a] =>
     match parseList l, parseList r with
@@ -30,13 +38,21 @@ def handle : List String → String
       | "cuts" => match parseList a with | some a => showIvls (alphaCutArr g P a) | none => "bad-op"
       | "cdf" => match parseRat a with | some a => showIvl (cdf g P a) | none => "bad-op"
       | "cdfs" => match parseList a with | some a => showIvls (cdfArr g P a) | none => "bad-op"
-      | "outer" => match parseList a with | some a => showIvls (outerDiscretisation g P a) | none => "bad-op"
-      | "cond" => match parseList a with | some a => showPB (condensation g P a) | none => "bad-op"
       | _ => "bad-op"
     | _, _ => "bad-op"
   | ["disc", l, r, n, lv] =>
     match parseList l, parseList r, parseN n, parseList lv with
-    | some l, some r, some n, some lv => showIvls (discretise g Gen.steps ⟨l, r⟩ n lv)
+    | some l, some r, some n, some lv =>
+      showIvls (discretise g Gen.steps ⟨l, r⟩ n (match n with | some m => lvOf m lv | none => lv))
+    | _, _, _, _ => "bad-op"
+  | ["outer", l, r, n, lv] =>
+    match parseList l, parseList r, parseN n, parseList lv with
+    | some l, some r, some n, some lv =>
+      showIvls (outerDiscretisation g ⟨l, r⟩ (match n with | some m => lvOf m lv | none => g))
+    | _, _, _, _ => "bad-op"
+  | ["cond", l, r, n, lv] =>
+    match parseList l, parseList r, parseN n, parseList lv with
+    | some l, some r, some (some m), some lv => showPB (condensation g ⟨l, r⟩ (lvOf m lv))
     | _, _, _, _ => "bad-op"
   | ["pi", l, r, a, st] =>
     match parseList l, parseList r, parseRat a with
